@@ -14,11 +14,13 @@ def _reader(what, s0, s1, tw1, tp0, tc0, tu0, tp1, tc1, tu1, pre_q, mode):
     if mode == 0:
         ok = c.has_objects([o0.key, o1.key]) == [True, True]
     elif mode == 1:
-        out = c.get_objects_content([o0.key, o1.key])
-        ok = len(out) == 2 and out[o0.key] == o0.content and out[o1.key] == o1.content
+        # a key that was never stored is part of the request
+        out = c.get_objects_content([o0.key, tkey(3), o1.key], skip_if_missing=False)
+        ok = len(out) == 3 and out[o0.key] == o0.content and out[o1.key] == o1.content and out[tkey(3)] is None
     elif mode == 2:
-        metas = dict(c.get_objects_meta([o0.key, o1.key], skip_if_missing=False))
-        ok = metas[o0.key].size == s0 and metas[o1.key].size == s1
+        got = list(c.get_objects_meta([o0.key, o1.key, tkey(3)], skip_if_missing=False))
+        metas = dict(got)
+        ok = len(got) == 3 and metas[o0.key].size == s0 and metas[o1.key].size == s1 and metas[tkey(3)].size is None
     else:
         ok = c.get_object_content(o1.key) == o1.content and c.get_object_content(o0.key) == o0.content
     if what == 'reach':
